@@ -38,8 +38,8 @@ func parProgram(r *rand.Rand, g int) (segs []seg, data []byte, ops []op) {
 	for k := 0; k < 3+r.Intn(4); k++ {
 		small()
 		// lengths spread from a few bytes to tens of KiB: the wider the copy, the wider any window on shared scratch
-		n := []int{1 + r.Intn(40), 200 + r.Intn(3000), 8000 + r.Intn(20000), 30000 + r.Intn(40000)}[r.Intn(4)]
-		if total+n > 110000 {
+		n := []int{1 + r.Intn(40), 200 + r.Intn(3000), 8000 + r.Intn(12000), 20000 + r.Intn(25000)}[r.Intn(4)]
+		if total+n > 70000 {
 			n = 1 + r.Intn(300)
 		}
 		total += n
